@@ -802,7 +802,10 @@ impl Add<HalfPel> for HalfPel {
     type Output = HalfPel;
 
     fn add(self, rhs: Self) -> Self {
-        HalfPel(self.0 + rhs.0)
+        // Vector components of a conforming stream stay far inside the i16 range; a
+        // hostile stream (unrestricted vectors with PLUSPTYPE) can make predictors
+        // accumulate without bound, so the sum saturates instead of overflowing.
+        HalfPel(self.0.saturating_add(rhs.0))
     }
 }
 
